@@ -354,11 +354,59 @@ def sc_simplequeue(env):
     return {"got": got, "empty": q.empty(), "code": p.exitcode}
 
 
+def w_turn(cond, turn, my, q):
+    with cond:
+        cond.wait_for(lambda: turn.value == my)
+        q.put(my)
+        turn.value += 1
+        cond.notify_all()
+
+
+def sc_condition_turns(env):
+    cond = env.mp.Condition()
+    turn = env.mp.Value("i", 0)
+    q = env.mp.SimpleQueue()
+    ps = [env.mp.Process(target=w_turn, args=(cond, turn, i, q)) for i in (2, 0, 1)]
+    for p in ps:
+        p.start()
+    got = [q.get() for _ in range(3)]
+    for p in ps:
+        p.join()
+    return {"order": got, "codes": [p.exitcode for p in ps], "turn": turn.value}
+
+
+def w_jq(q, out):
+    while True:
+        item = q.get()
+        if item is None:
+            q.task_done()
+            break
+        out.put(item * 2)
+        q.task_done()
+
+
+def sc_joinable_queue(env):
+    q = env.mp.JoinableQueue()
+    out = env.mp.Queue()
+    ps = [env.mp.Process(target=w_jq, args=(q, out)) for _ in range(2)]
+    for p in ps:
+        p.start()
+    for i in range(6):
+        q.put(i)
+    for _ in ps:
+        q.put(None)
+    q.join()
+    got = sorted(_drain(env, out, 6))
+    for p in ps:
+        p.join()
+    return {"got": got, "codes": [p.exitcode for p in ps]}
+
+
 SCENARIOS = [
     sc_normal_exit, sc_exception_flushes, sc_sys_exit_3, sc_sigkill_prefix, sc_get_timeout_empty, sc_per_worker_fifo,
     sc_dead_means_flushed, sc_exitcode_while_alive, sc_terminate, sc_join_before_drain_big, sc_killed_holding_lock,
     sc_torn_frame_blocks_get, sc_pool_map, sc_pool_exception, sc_pool_worker_killed, sc_pool_sys_exit_in_task, sc_pool_close_join,
-    sc_pipe_eof, sc_simplequeue,
+    sc_pipe_eof, sc_simplequeue, sc_condition_turns, sc_joinable_queue,
 ]
 
 
